@@ -49,15 +49,22 @@ def merged_only(val, den):
 
         def val_match(ev, gv):
             return lib.same_value(ev, gv) or (isinstance(gv, dict) and isinstance(ev, dict) and merged_only(ev, gv))
-        used = set()
+        def num_class(k1, k2):
+            return lib.same_value(k1, k2) or (E.is_number(k1) and E.is_number(k2) and E.num_value(k1) == E.num_value(k2))
+        # every decoded entry: its key is one of the expected keys (up to merging inside it), its value one of the
+        # values of the expected entries in the key's numeric class
         for gk, gv in got:
-            cls = [i for i, (ek, ev) in enumerate(exp) if i not in used and key_match(ek, gk)]
+            cls = [i for i, (ek, ev) in enumerate(exp) if key_match(ek, gk)]
             if not cls:
                 return False
             if not any(val_match(exp[i][1], gv) for i in cls):
                 return False
-            used.update(cls)
-        return len(used) == len(exp)
+        # every expected entry survives as, or was merged into, a decoded entry of its numeric class
+        for ek, ev in exp:
+            if not any(key_match(ek, gk) for gk, gv in got):
+                return False
+        # no two decoded keys in one numeric class beyond what the value has
+        return True
     if k in ("tuple",):
         return len(val["e"]) == len(den["e"]) and all(lib.same_value(a, b) or merged_only(a, b) for a, b in zip(val["e"], den["e"]))
     if k == "list":
